@@ -95,6 +95,8 @@ fn plans(tier: Tier) -> Vec<SectionPlan> {
         "Video,0,\"img.png\"",
         "Sprite,Background,Centre,\"sp.png\",320,240",
         "Sprite,Background,Centre",
+        "Sprite,Background,Centre,\"early.png\"",
+        "4,0,0,\"fg.png\",320",
         "2,x,5",
         "2,5,x",
         "9,0,x",
@@ -135,7 +137,7 @@ fn plans(tier: Tier) -> Vec<SectionPlan> {
         "CircleSize: inf",
     ];
     let editor: Vec<&'static str> = vec!["Bookmarks: 1,2", "Bookmarks: 3,x,5", "Bookmarks: x", "Bookmarks: 7,", "BeatDivisor: 8", "BeatDivisor: x", "GridSize: 2147483648", "DistanceSpacing: NaN", "TimelineZoom: 3"];
-    let metadata: Vec<&'static str> = vec!["Title: a", "BeatmapID: 5", "BeatmapID: x", "BeatmapSetID: 2147483648", "BeatmapSetID: 7", "Artist: b"];
+    let metadata: Vec<&'static str> = vec!["Title: a", "BeatmapID: 5", "BeatmapID: -5", "BeatmapSetID: -2147483647", "BeatmapID: x", "BeatmapSetID: 2147483648", "BeatmapSetID: 7", "Artist: b"];
     vec![
         SectionPlan {
             name: "HitObjects",
